@@ -178,6 +178,19 @@ CLAIMED["C10"] = {
     "technique": "TLA+ emit/parse/build model checked exhaustively over builder terms + the same terms replayed through the real builder, emitter and parser with TLC trace validation",
 }
 
+CLAIMED["C07"] = {
+    "level": "exploration",
+    "text": ("Faithfulness of text -> model over a 1000-line grammar is explored, not enumerated. The TLA+ part: CypherExpr/CypherExprCheck model-check "
+             "Parse(Emit(t)) = t and precedence for every boolean/comparison tree up to the bound (the fragment where a dropped token changes meaning "
+             "silently), and CypherExprTrace is the per-input monitor (accepted => re-emission parses, to a deep-equal model, is an emit fixed point, and "
+             "holds every content token of the input). Inputs: all repository corpora, one statement per top-level grammar form and per construct of "
+             "the unsupported list, and the rendered clause skeletons that TLC enumerates from ReadOnlyGate; TLC validates every record."),
+    "design_ref": "DESIGN.md 4/C07+C10",
+    "note": ("Exploration only: grammar forms are hand-listed from Cypher.g4 rather than derived mechanically, so a production nobody listed is not "
+             "covered; content tokens come from the harness's own lexer (numeric literals compared by type and value)."),
+    "technique": "TLC-enumerated clause skeletons + corpus/grammar-form inputs run through parse/emit/parse, each record validated by a TLA+ trace monitor",
+}
+
 CLAIMED["C08"] = {
     "level": "exploration",
     "text": ("Totality of one pure function over all byte strings is not something a TLA+ model decides; the spec (FrontTrace.tla) is a per-call "
@@ -194,5 +207,5 @@ CLAIMED["C08"] = {
 _NB = "not built yet in this round (design in DESIGN.md section 4)"
 NOT_APPLICABLE = {
     "C01": "needs the emitted SQL executed on PostgreSQL; no SQL engine exists in this sandbox and a TLA+ model of PostgreSQL would verify the model, not DAWGS (DESIGN.md section 5)",
-    "C02": _NB, "C03": _NB, "C04": _NB, "C05": _NB, "C06": _NB, "C07": _NB,     "C11": _NB, 
+    "C02": _NB, "C03": _NB, "C04": _NB, "C05": _NB, "C06": _NB, "C11": _NB, 
 }
